@@ -67,7 +67,14 @@ def c05_1(ctx: Ctx) -> RuleResult:
         ok = len(t[2]) >= 5 and show(t[2][1]).endswith("realizations.weights") and show(t[2][3]).endswith(".first") and show(t[2][4]).endswith(".last")
         res.add(g, c, "the kernel receives (values, config.realizations.weights, failed, options.first, options.last)", ok,
                 "" if ok else f"arguments are `{[show(a, 40) for a in t[2]]}`", construct=f"{g.name}: kernel arguments")
-    res.floor = 4
+    # the ranking of successes and the failure flags (shared with C04.4, sort kernel only)
+    from .c04 import c04_4
+
+    for i in c04_4(ctx).instances:
+        if f.name in i.construct or "failure flags for " + f.name in i.construct:
+            i.rule = "C05.1"
+            res.instances.append(i)
+    res.floor = 6
     return res
 
 
